@@ -18,7 +18,7 @@ Changed(a, b, ownSetDV) ==
     (IF a.nodes = b.nodes /\ a.der = b.der /\ a.con = b.con /\ a.exc = b.exc /\ a.inc = b.inc /\ a.marker = b.marker
         /\ a.sel_left = b.sel_left /\ a.cc_left = b.cc_left /\ a.ncons = b.ncons THEN {} ELSE {"C08.old_object_graph_changed"})
     \cup (IF a.feasible = b.feasible /\ a.final = b.final THEN {} ELSE {"C08.old_object_status_changed"})
-    \cup (IF a.next = b.next /\ a.offered = b.offered /\ a.ghost = b.ghost THEN {} ELSE {"C08.old_object_choices_changed"})
+    \cup (IF a.next = b.next /\ a.nextcc = b.nextcc /\ a.offered = b.offered /\ a.ghost = b.ghost THEN {} ELSE {"C08.old_object_choices_changed"})
     \cup (IF a.connsets = b.connsets THEN {} ELSE {"C08.old_object_connection_sets_changed"})
     \cup (IF a.degs = b.degs THEN {} ELSE {"C08.old_object_connector_degrees_changed"})
     \cup (IF a.dvv = b.dvv \/ ownSetDV THEN {} ELSE {"C08.old_object_values_changed"})
